@@ -473,6 +473,91 @@ theorem c09_integrate_reverse_unsynchronized_flips_dt (c : Config) (n k : Nat) (
       (integratePlan n k exact true false false rc) f = false := by
   simp [integratePlan, dtOk, hf]
 
+/-! ### particle edits inside the step: `pre_timestep_modifications` / `post_timestep_modifications` -/
+
+/-- **A callback always sees synchronised particles and its edits are always picked up** — flag
+    level, WHFast (keep_unsynchronized = 0, any other option, any start flags).  For every sequence
+    of steps with or without pre/post callbacks (`reb_simulation_step`: synchronize → callback →
+    set the recalculate flags, in that order — `cbStepPlan`), synchronisations and read-only calls:
+    every edit (`poke`) is executed with `is_synchronized = 1`, and the step that follows an edit is
+    entered synchronised with `recalculate_coordinates_this_timestep = 1`, so part1 transforms the
+    edited particles and no synchronize overwrites them first.  (The seeded change that calls the
+    callback *before* the synchronize breaks the replay of exactly this plan.) -/
+theorem c09_whfast_callback_edits_seen_and_picked_up {U : Type} (c : Config) (hk : c.keep = false)
+    (l : List (MOp U)) (f : Flags) :
+    editOk (fun f => (stepOps c f).2) (fun f => (syncOps c f).2) (fun f => { f with recalc := true })
+      Flags.isSync Flags.recalc (expandAll l) false f = true := by
+  have H : EditFlags (fun f => (stepOps c f).2) (fun f => (syncOps c f).2)
+      (fun f : Flags => { f with recalc := true }) Flags.isSync Flags.recalc :=
+    { sync_isS := syncOps_nokeep_isSync c hk
+      sync_isR := fun f h1 h2 => by
+        have : (initF f).isSync = true := by rw [initF_isSync]; exact h1
+        show (syncOps c f).2.recalc = true
+        rw [syncOps_sync c f this]
+        unfold initF; split <;> simp_all
+      set_isS := fun f h => h
+      set_isR := fun f => rfl }
+  have := editOk_expand _ _ _ _ _ H l [] false f (fun h => by cases h) (fun p g _ => rfl)
+  simpa using this
+
+theorem c09_saba_callback_edits_seen_and_picked_up {U : Type} (c : SabaConfig) (hk : c.keep = false)
+    (l : List (MOp U)) (f : Flags) :
+    editOk (fun f => (sabaStepOps c f).2) (fun f => (sabaSyncOps c f).2) (fun f => { f with recalc := true })
+      Flags.isSync Flags.recalc (expandAll l) false f = true := by
+  have H : EditFlags (fun f => (sabaStepOps c f).2) (fun f => (sabaSyncOps c f).2)
+      (fun f : Flags => { f with recalc := true }) Flags.isSync Flags.recalc :=
+    { sync_isS := fun g => by unfold sabaSyncOps; cases hg : g.isSync <;> simp [hk, hg]
+      sync_isR := fun g h1 h2 => by unfold sabaSyncOps; simp [h1, h2]
+      set_isS := fun f h => h
+      set_isR := fun f => rfl }
+  have := editOk_expand _ _ _ _ _ H l [] false f (fun h => by cases h) (fun p g _ => rfl)
+  simpa using this
+
+theorem c09_mercurius_callback_edits_seen_and_picked_up {U : Type} (safe : Bool)
+    (l : List (MOp U)) (f : MFlags) :
+    editOk (fun f => (mStepOps safe f).2) (fun f => (mSyncOps f).2) (fun f => { f with recalc := true })
+      MFlags.isSync MFlags.recalc (expandAll l) false f = true := by
+  have H : EditFlags (fun f => (mStepOps safe f).2) (fun f => (mSyncOps f).2)
+      (fun f : MFlags => { f with recalc := true }) MFlags.isSync MFlags.recalc :=
+    { sync_isS := fun g => by unfold mSyncOps; cases hg : g.isSync <;> simp [hg]
+      sync_isR := fun g h1 h2 => by unfold mSyncOps; simp [h1, h2]
+      set_isS := fun f h => h
+      set_isR := fun f => rfl }
+  have := editOk_expand _ _ _ _ _ H l [] false f (fun h => by cases h) (fun p g _ => rfl)
+  simpa using this
+
+/-- EOS has no internal coordinates: an edit only has to be made in a synchronised state -/
+theorem c09_eos_callback_edits_seen_synchronised {U : Type} (safe : Bool) (l : List (MOp U)) (b : Bool) :
+    editOk (fun b => (eStepOps safe b).2) (fun b => (eSyncOps b).2) id id (fun _ => true)
+      (expandAll l) false b = true := by
+  have H : EditFlags (fun b => (eStepOps safe b).2) (fun b => (eSyncOps b).2) (id : Bool → Bool) id (fun _ => true) :=
+    { sync_isS := fun g => by cases g <;> rfl
+      sync_isR := fun _ _ _ => rfl
+      set_isS := fun f h => h
+      set_isR := fun f => rfl }
+  have := editOk_expand _ _ _ _ _ H l [] false b (fun h => by cases h) (fun p g _ => rfl)
+  simpa using this
+
+section physics2
+variable [AddCommGroup T]
+/-- **Unsafe mode = safe mode with callbacks that edit particles** (WHFast, semantic): for every
+    sequence of steps with arbitrary pre/post callback edits, synchronisations and read-only calls,
+    the unsafe run followed by a final synchronize shows the positions, velocities and internal
+    coordinates of the safe run that performs the same steps and edits.  Same hypotheses as
+    `c09_whfast_unsafe_sync_equals_safe_partial`. -/
+theorem c09_whfast_unsafe_sync_equals_safe_with_callbacks_partial (S : Sem T PJ X V A) (L : Laws S)
+    (c : Config) (hC : InverseOn S (corrBlk c)) (hF18 : InverseOn S (c2Blk c))
+    (l : List (MOp (X × V))) (x0 : Flags × St PJ X V A)
+    (h0 : x0.1.isSync = true) (hr : (initF x0.1).recalc = true) :
+    let u := apply S (c.mode false false) .synchronize (run S (c.mode false false) (expandAll l) x0)
+    let v := run S (c.mode true false) ((expandAll l).filter Op.isKept) x0
+    u.2.pj = v.2.pj ∧ u.2.pos = v.2.pos ∧ u.2.vel = v.2.vel := by
+  intro u v
+  have hf : initF x0.1 = ⟨true, true, true⟩ := by
+    rw [flags_eta (initF x0.1), initF_isSync, h0, hr, initF_allocated]
+  exact inv_final S c (inv_macro_run L c hC hF18 l x0 x0 (Inv.fresh _ _ rfl hf hf))
+end physics2
+
 /-! ### the hypotheses are satisfiable: a 1-D oscillator, integer time -/
 
 /-- `p_jh` = (position, velocity, centre of mass); time in units of dt/8 -/
